@@ -125,21 +125,23 @@ type c12Cfg struct {
 	// rule variants; the value of goCfg is the behaviour of syntax/parser.go
 	elseInCmd   bool // `else` / `in` may be a command name when they are not a stop word
 	rsrvAfterIO bool // after a redirection prefix reserved words are still reserved
-	bangAlone   bool // `!` may stand alone / be repeated
+	bangAlone   bool // bash: `!` may be repeated, and may stand alone before `;`, newline or EOF
+	forAssign   bool // an assignment-looking word is accepted as the `for` variable
 	fnBody      int  // function body: 0 any and-or list (Go), 1 one command (dash), 2 compound command (bash)
 	forBrace    bool // `for x; { …; }`
+	patAny      bool // dash quirk (not a grammar variant): case patterns are not checked to be words
 }
 
 func c12GoCfg(posix bool) c12Cfg {
-	return c12Cfg{posix: posix, elseInCmd: true, rsrvAfterIO: true, bangAlone: false, fnBody: 0, forBrace: !posix}
+	return c12Cfg{posix: posix, elseInCmd: true, rsrvAfterIO: true, bangAlone: false, forAssign: true, fnBody: 0, forBrace: !posix}
 }
 
 // c12ShCfg is the grammar of the real shell of the language (bash for Bash, dash for POSIX).
 func c12ShCfg(posix bool) c12Cfg {
 	if posix {
-		return c12Cfg{posix: true, elseInCmd: false, rsrvAfterIO: false, bangAlone: false, fnBody: 1, forBrace: false}
+		return c12Cfg{posix: true, elseInCmd: false, rsrvAfterIO: false, bangAlone: false, forAssign: false, fnBody: 1, forBrace: false}
 	}
-	return c12Cfg{posix: false, elseInCmd: false, rsrvAfterIO: false, bangAlone: true, fnBody: 2, forBrace: true}
+	return c12Cfg{posix: false, elseInCmd: false, rsrvAfterIO: false, bangAlone: true, forAssign: true, fnBody: 2, forBrace: true}
 }
 
 type c12Quote int
@@ -270,13 +272,23 @@ func (p *c12P) getStmt(q c12Quote, readEnd, binCmd bool) (ok, semi bool) {
 	neg := false
 	if p.got("!") {
 		neg = true
-		if !p.cfg.bangAlone {
-			if c12Stop(p.tok()) {
-				p.fail()
+		if p.cfg.bangAlone {
+			for p.tok() == "!" {
+				p.next()
 			}
-			if p.tok() == "!" {
-				p.fail()
+			if t := p.tok(); !p.err && (t == "" || t == "NL" || t == ";") {
+				if readEnd && t == ";" {
+					p.next()
+					return true, true
+				}
+				return true, false
 			}
+		}
+		if c12Stop(p.tok()) {
+			p.fail()
+		}
+		if p.tok() == "!" {
+			p.fail()
 		}
 	}
 	if !p.pipe(q, neg, false) || p.err {
@@ -347,7 +359,7 @@ func (p *c12P) pipe(q c12Quote, neg, binCmd bool) bool {
 			p.expect("done")
 		case "for":
 			p.next()
-			if !c12LitWord(p.tok()) {
+			if !c12LitWord(p.tok()) || (p.tok() == "A" && !p.cfg.forAssign) {
 				p.fail()
 			}
 			p.next()
@@ -393,7 +405,9 @@ func (p *c12P) pipe(q c12Quote, neg, binCmd bool) bool {
 			for p.tok() != "" && p.tok() != "esac" {
 				p.got("(")
 				for p.tok() != "" {
-					if !p.getWord() {
+					if p.cfg.patAny {
+						p.next()
+					} else if !p.getWord() {
 						p.fail()
 					}
 					if p.tok() == ")" {
@@ -814,6 +828,47 @@ func (g c12Gen) program(d int) []string {
 	return out
 }
 
+// c12OracleQuirk reports token lists on which `bash -n` / `dash -n` is not a usable oracle:
+//   - bash checks that a function name or `for` variable is an identifier only when the command
+//     is executed, so `bash -n` accepts `'q' ( ) …` and `for 'q' in …`; the repository's own
+//     confirmParse therefore runs expected-error inputs without -n.
+//   - bash 5.2 mis-tracks the `in` it expects after `for x <newline>` once a `case` has been seen
+//     (`case a in esac; for a <newline> in x; do c; done` is a syntax error, without the case or
+//     without the newline it is not).
+//   - dash does not check that the tokens in a case pattern list are words (parser.c, `case`):
+//     `case a in b | ; ) …` and `case a in ; ) …` are accepted.  The region is computed exactly:
+//     the lists on which the grammar with unchecked patterns answers differently.
+func c12OracleQuirk(posix bool, ts []string) bool {
+	if posix {
+		cfg := c12ShCfg(true)
+		cfg.patAny = true
+		return c12Model(cfg, ts) != c12Model(c12ShCfg(true), ts)
+	}
+	hasCase, forNLin := false, false
+	for i, t := range ts {
+		nxt := ""
+		if i+1 < len(ts) {
+			nxt = ts[i+1]
+		}
+		if t == "case" {
+			hasCase = true
+		}
+		if (t == "Q" && nxt == "(") || (t == "for" && nxt == "Q") {
+			return true
+		}
+		if t == "for" && i+2 < len(ts) && ts[i+2] == "NL" {
+			j := i + 2
+			for j < len(ts) && ts[j] == "NL" {
+				j++
+			}
+			if j < len(ts) && ts[j] == "in" {
+				forNLin = true
+			}
+		}
+	}
+	return hasCase && forNLin
+}
+
 // c12Mutate applies one token-level insertion, deletion, replacement or swap.
 func c12Mutate(r *Rand, ts []string) []string {
 	out := append([]string(nil), ts...)
@@ -854,7 +909,11 @@ func c12Sample(c *Ctx) {
 		ts := g.program(c.R.Intn(3))
 		add(ts)
 		for j := 0; j < 3; j++ {
-			add(c12Mutate(c.R, ts))
+			m := c12Mutate(c.R, ts)
+			add(m)
+			if c.R.Chance(30) {
+				add(c12Mutate(c.R, m))
+			}
 		}
 	}
 	dir := scratchDir(c)
@@ -870,6 +929,12 @@ func c12Sample(c *Ctx) {
 		mb, md := c12Model(c12ShCfg(false), ts), c12Model(c12ShCfg(true), ts)
 		if mb == "acc" {
 			acc++
+		}
+		if c12OracleQuirk(false, ts) {
+			r.b = mb
+		}
+		if c12OracleQuirk(true, ts) {
+			r.d = md
 		}
 		if r.b != "timeout" && mb != r.b {
 			lines = append(lines, fmt.Sprintf("BASH grammar=%s sh=%s : %s", mb, r.b, strings.Join(ts, " ")))
